@@ -224,10 +224,20 @@ def check(model, rep, tier):
 
   ev2 = setalg.Ev(model, cnd, at)
   rets, env = ev2.run({cparam: setalg.SetV(atom('VARS'))})
-  n1, b1 = pat.first(cnd.node, 'ast.Global([str(_V_) for _V_ in _G_])')
-  n2, b2 = pat.first(cnd.node, 'ast.Nonlocal([str(_V_) for _V_ in _N_])')
-  gv = env.get(b1['_G_']) if b1 else None
-  nv = env.get(b2['_N_']) if b2 else None
+  def declared(kind):
+    """the set of names put into the ast.<kind> declaration: the source of a
+    `[str(v) for v in X]` argument, or a list filled by a loop"""
+    for c in ast.walk(cnd.node):
+      if isinstance(c, ast.Call) and core.dotted(c.func) == 'ast.' + kind and len(c.args) == 1:
+        a = c.args[0]
+        if isinstance(a, ast.ListComp) and len(a.generators) == 1 and not a.generators[0].ifs \
+            and core.norm(a.elt) == 'str(%s)' % core.norm(a.generators[0].target):
+          a = a.generators[0].iter
+        if isinstance(a, ast.Name):
+          return env.get(a.id)
+    return None
+  gv = declared('Global')
+  nv = declared('Nonlocal')
   ok = isinstance(gv, setalg.SetV) and isinstance(nv, setalg.SetV)
   cex = None
   if ok:
